@@ -828,3 +828,19 @@ GROUPS["p12"] += [
       "        if self.children.iter().any(|c| Arc::ptr_eq(c, &dictionary)) {\n            return;\n        }\n" + _AD_OLD,
       None),
 ]
+
+# C14: ignore list as a sorted vector; append without / with a re-sort (the shape of seeded/C14-d)
+_IL = "harper-core/src/ignored_lints/mod.rs"
+def _il(group, bad):
+    sfx = "" if bad else "-sorted"
+    return [
+        E("%sc14-sorted-vec-field%s" % (group, sfx), ["C14"], _IL, "    context_hashes: HashSet<u64>,", "    context_hashes: Vec<u64>,", None),
+        E("%sc14-sorted-vec-append%s" % (group, sfx), ["C14"], _IL, "        self.context_hashes.extend(other.context_hashes)\n",
+          "        self.context_hashes.extend(other.context_hashes);\n" + ("" if bad else "        self.context_hashes.sort_unstable();\n") + "        self.context_hashes.dedup();\n        let _unused: Option<HashSet<u64>> = None;\n",
+          "R-C14-agree:IgnoredLints::append:keeps-sorted:extend" if bad else None),
+        E("%sc14-sorted-vec-insert%s" % (group, sfx), ["C14"], _IL, "        self.context_hashes.insert(context_hash);",
+          "        if let Err(idx) = self.context_hashes.binary_search(&context_hash) {\n            self.context_hashes.insert(idx, context_hash);\n        }", None),
+        E("%sc14-sorted-vec-lookup%s" % (group, sfx), ["C14"], _IL, "        self.context_hashes.contains(&hash)", "        self.context_hashes.binary_search(&hash).is_ok()", None),
+    ]
+GROUPS["g25"] = _il("", True)
+GROUPS["p13"] = _il("p-", False)
